@@ -699,6 +699,12 @@ impl Gen {
             1 => Op::SeekCur { fs, delta: t - off, fl },
             _ => {
                 let back = len - t;
+                if fl == 2 && self.rng.chance(1, 6) {
+                    // through the embedded-io adapter: SeekFrom::End(+n), n > 0 - a position behind the end, refused
+                    // like every other one (encoded as POSITIVE_END + n; see Fs::seek_end)
+                    let n = (*self.rng.pick(&[1i64, 2, 10, len, len / 2, cb, 511])).max(1) as u64;
+                    return Op::SeekEnd { fs, back: crate::fs::POSITIVE_END + n, fl };
+                }
                 Op::SeekEnd { fs, back: if back < 0 { (len + 1) as u64 } else { back as u64 }, fl }
             }
         }
